@@ -476,7 +476,10 @@ func (c *Core) localDelivery(bp BundleDescriptor) {
 	_ = bp.Sync()
 
 	if err := c.agentManager.Deliver(bp); err != nil {
+		// The bundle was not handed to any application agent. It is kept because of its LocalEndpoint
+		// constraint; its delivery must neither be reported nor be accounted for.
 		log.WithField("bundle", bp.ID()).WithError(err).Warn("Delivering local bundle errored")
+		return
 	}
 
 	if bp.MustBundle().PrimaryBlock.BundleControlFlags.Has(bpv7.StatusRequestDelivery) {
